@@ -165,6 +165,36 @@ def enumerate_named_functions(contexts=("module", "def", "method")):
     return out
 
 
+# identifiers that are fragments of the word "lambda" (a scanner that tests `name in "lambda"` takes them for it)
+FRAGMENTS = ("a", "b", "d", "l", "m", "la", "am", "mb", "bd", "da", "lam", "amb", "bda", "lamb", "mbda", "ambda", "lambd")
+
+
+def enumerate_one_call_with_neighbours(ops=OPS[:3], params=PARAMS, styles=("one", "str", "nest")):
+    """ONE lambda per line (the documented base case) with other code on the same line: names before / after the
+    call that are fragments of the word lambda, in a conditional expression, a tuple, a second statement"""
+    out = []
+    for op in ops:
+        for p in params:
+            for st in styles:
+                body = lam(p, 1, op, st)
+                for nm in FRAGMENTS:
+                    stmts = {
+                        "cond-after": f"{nm} = 1\n\tr = ds.{op}({body}) if {nm} else None",
+                        "cond-before": f"{nm} = 0\n\tr = None if {nm} else ds.{op}({body})",
+                        "tuple-after": f"{nm} = 1\n\tr = (ds.{op}({body}), {nm}, {nm})[0]",
+                        "tuple-before": f"{nm} = 1\n\tr = ({nm}, ds.{op}({body}))[1]",
+                        "stmt-after": f"q = ds.{op}({body}); {nm} = q; r = {nm}",
+                        "stmt-before": f"{nm} = ds; r = {nm}.{op}({body})",
+                        "attr-after": f"r = ds.{op}({body}).keep({p!r}).{nm}(1)",
+                    }
+                    for shape, stmt in stmts.items():
+                        for ctx in ("module", "def", "method"):
+                            src = in_context(stmt, ctx)
+                            if src is not None:
+                                out.append((src, (f"one:{shape}", ctx, (op, p, 1, st), nm)))
+    return out
+
+
 def enumerate_closure_reuse():
     """the same lambda text executed several times with different captured values (loop, helper function,
     comprehension): every call must record the lambda with the values it has at THAT call"""
